@@ -28,7 +28,10 @@ struct InstNameIndex {
 namespace InstNameUtils {
 
 Error decode(uint32_t name_value, InstStringifyOptions options, const char* string_table, String& output) noexcept;
-InstId find_instruction(const char* s, size_t len, const uint32_t* name_table, const char* string_table, const InstNameIndex& name_index) noexcept;
+//! Finds an instruction by name. If `sorted_id_table` is null instruction ids must be sorted by name and spans of
+//! `name_index` are instruction ids, otherwise `sorted_id_table` holds instruction ids sorted by name (position 0 is
+//! unused) and spans of `name_index` are positions in that table.
+InstId find_instruction(const char* s, size_t len, const uint32_t* name_table, const char* string_table, const InstNameIndex& name_index, const uint16_t* sorted_id_table = nullptr) noexcept;
 uint32_t find_alias(const char* s, size_t len, const uint32_t* name_table, const char* string_table, uint32_t alias_name_count) noexcept;
 
 } // {InstNameUtils}
